@@ -42,13 +42,19 @@ def rangeList : Nat → Int → Int → Int → List Int
   | fuel + 1, cur, stop, step =>
     if (0 < step ∧ cur < stop) ∨ (step < 0 ∧ stop < cur) then cur :: rangeList fuel (cur + step) stop step else []
 
-/-- `range(start, end, step)`: every argument must fit an `i64`, the step must not be zero -/
+/-- the argument checks of `range(start, end, step)`: every argument must fit an `i64`, the step must not be zero -/
+def rangeGuard (start stop step : Int) : Option String :=
+  if !fits start then some "start out of bounds"
+  else if !fits stop then some "end out of bounds"
+  else if !fits step then some "step out of bounds"
+  else if step = 0 then some "invalid range, step size cannot be zero"
+  else none
+
+/-- `range(start, end, step)` as a list -/
 def range (start stop step : Int) : Except String (List Int) :=
-  if !fits start then .error "start out of bounds"
-  else if !fits stop then .error "end out of bounds"
-  else if !fits step then .error "step out of bounds"
-  else if step = 0 then .error "invalid range, step size cannot be zero"
-  else .ok (rangeList ((stop - start).natAbs + 1) start stop step)
+  match rangeGuard start stop step with
+  | some e => .error e
+  | none => .ok (rangeList ((stop - start).natAbs + 1) start stop step)
 
 /-- `fn factorial(n: int, step: int ?= 1)->int{ if(n < 0, error(…), range(n,0,-step).to_generator().reduce(1, mul{int, int})) }` -/
 def factorial (n step : Int) : Res :=
@@ -92,9 +98,9 @@ def rootPred (a b x : Int) : Except String Bool :=
 /-- `fn floor_root(a: int, b: int ?= 2)->int{ if(a<0, error(…), range(1, a+1).bisect((x:int)->{x**b <= a})) }` -/
 def floorRoot (a b : Int) : Option Res :=
   if a < 0 then some (.error "a must be non-negative")
-  else match range 1 (a + 1) 1 with
-    | .error e => some (.error e)
-    | .ok _ =>
+  else match rangeGuard 1 (a + 1) 1 with
+    | some e => some (.error e)
+    | none =>   -- the sequence `range(1, a+1)` is the slice `1 … a` (never materialised)
       bisectHelper (rootPred a b) (a.toNat + 1) 1 a.toNat 0
 
 /-- `fn ceil_root(a: int, b: int ?= 2)->int{ if(a==0, 0, 1+floor_root(a-1, b)) }` -/
